@@ -74,7 +74,14 @@ pub enum MatchTypePattern {
 
 impl MatchTypePattern {
     pub fn from_type_str(s: &str) -> Self {
-        match s {
+        match Self::try_from_type_str(s) {
+            Some(pattern) => pattern,
+            None => panic!("Unknown type"),
+        }
+    }
+
+    pub fn try_from_type_str(s: &str) -> Option<Self> {
+        Some(match s {
             "int" => MatchTypePattern::Int,
             "uint" => MatchTypePattern::Uint,
             "float" | "double" => MatchTypePattern::Float,
@@ -86,8 +93,8 @@ impl MatchTypePattern {
             "null" => MatchTypePattern::Null,
             "timestamp" => MatchTypePattern::Timestamp,
             "duration" => MatchTypePattern::Duration,
-            _ => panic!("Unknown type"),
-        }
+            _ => return None,
+        })
     }
 }
 
